@@ -13,6 +13,7 @@ import sys
 
 FIXES = {  # subject prefix -> properties whose check must fire when the fix is reverted
     "fix: config.set records": ["C17"],
+    "fix: delayed optimize flattens": ["C09"],
     "fix: blockwise(align_arrays=False)": ["C25"],
     "fix: argtopk with k >= n": ["C22"],
     "fix: topk and argtopk declare": ["C22"],
